@@ -16,7 +16,7 @@ use tyme4rs::tyme::culture::star::twelve::{Ecliptic, TwelveStar};
 use tyme4rs::tyme::culture::star::seven::SevenStar;
 use tyme4rs::tyme::sixtycycle::{EarthBranch, HeavenStem, SixtyCycle, SixtyCycleYear};
 use tyme4rs::tyme::lunar::{LunarMonth, LunarSeason, LunarYear};
-use tyme4rs::tyme::solar::SolarTerm;
+use tyme4rs::tyme::solar::{SolarTerm, SolarYear};
 use crate::nd::In;
 use crate::{witness, Body};
 
@@ -197,6 +197,11 @@ pub fn c11f_years(i: &mut In, _p: &[i64]) {
   if ok && -1 <= y + n && y + n <= 9999 {
     assert!(LunarYear::from_year(y as isize).next(n as isize).get_year() as i64 == y + n);
     assert!(SixtyCycleYear::from_year(y as isize).next(n as isize).get_year() as i64 == y + n);
+  }
+  let oks = 1 <= y && y <= 9999;
+  assert!(SolarYear::new(y as isize).is_ok() == oks);
+  if oks && 1 <= y + n && y + n <= 9999 {
+    assert!(SolarYear::from_year(y as isize).next(n as isize).get_year() as i64 == y + n);
   }
   witness!(ok && n < 0, "backwards");
   witness!(y == 10000, "year 10000 refused");
